@@ -96,7 +96,7 @@ PROPS = {
         ],
         "assumptions": [
             "verbatim blocks are not generated, and {# #} comments only between two non-whitespace characters of a text (next to a marker or a block tag neither C06 nor C15 decides what 'directly' means)",
-            "template hierarchies (extends) are not generated: the option pass only rewrites the tokens of the executed template; C15 speaks about documents",
+            "two-level hierarchies (extends + block override) are generated since the options are applied along the whole chain of parents (fix c.f. known_findings C04)",
             "spaceless: an HTML tag is '<', characters other than newline, '>' (the engine's own notion, pinned by spaceless.tpl)",
         ],
     },
